@@ -83,8 +83,8 @@ def d1_positions(ctx, m):
     co = key_order(m, w, 'cd')
     ic = m.func('_import_cdata')
     cp = reader_positions(m, ic, 'cd')
-    t = unparse(ic)
-    ok = co == ['id', 'array'] and cp == {0: 'id'} and 'cov = _import_array(cd[1])' in t and 'grad = _import_array(cd[2])' in t and "cd[1][0].text.strip() == 'cov'" in t
+    t = m.text(ic)
+    ok = co == ['id', 'array'] and cp == {0: 'id'} and 'cov = _import_array(cd[1])' in t and 'grad = _import_array(cd[2])' in t and 'return cd[0].text.strip(), cov, grad' in t and "cd[1][0].text.strip() == 'cov'" in t
     arr = [s for s in statements(w) if isinstance(s, ast.Assign) and unparse(s.targets[0]) == "cd['array']"]
     ok = ok and len(arr) == 1 and unparse(arr[0].value) == '[covd, gradd]'
     ctx.check(rule, 'dobs#cdata-order', ok, 'cdata children: id, cov array, grad array', 'writer %s / %s, reader %s' % (co, [unparse(a.value) for a in arr], cp))
@@ -122,7 +122,7 @@ def d2_encoding(ctx, m):
     okv = len(vals) == 1 and "'%1.16e' % o.value for o in obsl" in unparse(vals[0].value)
     ctx.check(rule, 'dobs#writer-values', okv, 'central values written in list order', 'values %s' % [unparse(s.value) for s in vals])
     rd = m.func('import_dobs_string')
-    t = unparse(rd)
+    t = m.text(rd)
     okr = 'tmp[j] = deltad[name][i][j] + mean[i]' in t and 'obsmeans = [np.average(deltas[j]) for j in range(len(deltas))]' in t and \
         'Obs([np.array(deltas[j]) - obsmeans[j] for j in range(len(obsmeans))], obs_names, idl=idl, means=obsmeans)' in t and 'res[-1]._value = mean[i]' in t
     written = delta + (r - v)
@@ -131,7 +131,7 @@ def d2_encoding(ctx, m):
     ctx.check(rule, 'dobs#reader-decoding', okr and alg, 'sample + value, replica mean = average, fluctuation = sample - replica mean: inverse of the writer', 'reader decoding differs')
     # row layout vs stride
     ia = m.func('_import_array')
-    t = unparse(ia)
+    t = m.text(ia)
     oks = '_dat += [np.array(tmp[1 + a::na + 1])]' in t and 'tmp[0::na + 1]' in t and "na = int(m[2].lstrip('f'))" in t and 'nc = int(m[0])' in t
     lay = [s for s in statements(w) if isinstance(s, ast.Assign) and unparse(s.targets[0]) == 'layout']
     okl = len(lay) == 1 and unparse(lay[0].value) == "'%d i f%d' % (Nconf, len(obsl))"
@@ -280,7 +280,7 @@ def d5_formats(ctx, m):
 def d6_misc(ctx, m):
     rule = 'C12-D6'
     w = m.func('create_dobs_string')
-    t = unparse(w)
+    t = m.text(w)
     ok = "ad['id'] = repname.replace('|', '')" in t
     r = unparse(m.func('import_dobs_string'))
     okr = "rname = rname[:len(ename)] + '|' + rname[len(ename):]" in r and 'rname.startswith(ename)' in r
@@ -353,6 +353,8 @@ def run(ctx):
 
 
 SELFTEST = [
+    ('benign-rename-cdata-locals', 'pyerrors/input/dobs.py', "    cov = _import_array(cd[1])\n    grad = _import_array(cd[2])\n    return cd[0].text.strip(), cov, grad", "    cmat = _import_array(cd[1])\n    jac = _import_array(cd[2])\n    return cd[0].text.strip(), cmat, jac", 'BENIGN'),
+    ('cdata-cov-grad-swapped', 'pyerrors/input/dobs.py', "    cov = _import_array(cd[1])\n    grad = _import_array(cd[2])", "    cov = _import_array(cd[2])\n    grad = _import_array(cd[1])", 'C12-D2'),
     ('fix-reverted-separator', 'pyerrors/input/dobs.py', "if separator_insertion is None or separator_insertion is False:", "if separator_insertion is None or False:", 'C12-D4'),
     ('fix-reverted-precision', 'pyerrors/input/dobs.py', "covd['#data'] = '%1.16e' % (allcov[cname])", "covd['#data'] = '%1.14e' % (allcov[cname])", 'C12-D5'),
     ('sample-precision', 'pyerrors/input/dobs.py', "                            num = o.deltas[repname][counters[oi]] + offsets[oi]\n                            if num == 0:\n                                data += '0 '\n                            else:\n                                data += '%1.16e ' % (num)", "                            num = o.deltas[repname][counters[oi]] + offsets[oi]\n                            if num == 0:\n                                data += '0 '\n                            else:\n                                data += '%1.12e ' % (num)", 'C12-D5'),
